@@ -1060,3 +1060,207 @@ class SubscribeResponse(FnCheck):
         ex.oblige(st, 'reference_parameters_identify_the_new_subscription', z3.Select(st.get_arr('f:ReferenceParameters'), mgr) == self.refp.e)
         rep = st.ghost.get('c:reply')
         ex.oblige(st, 'the_response_is_the_reply_to_this_request', z3.And(rep[0] == Val.ref(self.req.e), rep[1] == Val.ref(r)) if rep else z3.BoolVal(False))
+
+
+# ---------------------------------------------------------------------------------------------------------------
+# the pool of notification connections (one soap client per subscriber address, shared by its subscriptions)
+SP = 'sdc11073.pysoap.soapclientpool'
+
+
+class _Pool(FnCheck):
+    prop = 'C08'
+    container_hints = {'self._soap_clients': 'dict', 'entry.usr_idents': 'list'}
+
+    def mk_pool(self, b):
+        st = b.st
+        ids = b.ex.ctx.builtin_class_ids
+        self.clients = b.obj('_soap_clients')
+        st.assume(z3.Select(st.get_arr('C'), self.clients.e) == ids['dict'])
+        self.dk0 = z3.Select(st.get_arr('DK'), self.clients.e)
+        self.dv0 = z3.Select(st.get_arr('DV'), self.clients.e)
+        st.assume(z3.Select(st.get_arr('DN'), self.clients.e) >= 0)
+        self.netloc = b.str('netloc')
+        self.usr = b.obj('usr_ident')
+        key = Val.str(self.netloc.e)
+        self.known = z3.Select(self.dk0, key)
+        # the entry stored for this address (if any): its own user list, a client or None
+        self.entry = b.obj('entry')
+        self.users = b.obj('entry.usr_idents')
+        st.assume(z3.Select(st.get_arr('C'), self.users.e) == ids['list'])
+        self.U0 = z3.Select(st.get_arr('L'), self.users.e)
+        self.client = b.any('entry.soap_client', maybe_none=True)
+        st.assume(z3.Or(Val.is_none(self.client.e), z3.And(Val.is_ref(self.client.e), Val.oid(self.client.e) > 0,
+                                                           Val.oid(self.client.e) < 10 ** 9)))
+        b.set(self.entry, 'usr_idents', self.users)
+        b.set(self.entry, 'soap_client', self.client)
+        st.assume(z3.Implies(self.known, z3.Select(self.dv0, key) == Val.ref(self.entry.e)))
+        self.mgr = b.any('async_loop_subscr_mgr', maybe_none=True)
+        st.assume(z3.Or(Val.is_none(self.mgr.e), Val.is_ref(self.mgr.e)))
+        self.o = b.obj('self', cls=(SP, 'SoapClientPool'), _soap_clients=self.clients, async_loop_subscr_mgr=self.mgr)
+        b.distinct(self.o, self.clients, self.entry, self.users, self.usr)
+        st.ghost['closed'] = ()
+        return key
+
+    def close_summaries(self):
+        def close(ex_, st, args, kwargs):
+            st.ghost['closed'] = st.ghost['closed'] + ('close',)
+            return NONE
+
+        def async_close(ex_, st, args, kwargs):
+            return st.alloc('Coroutine')
+
+        def run_coro(ex_, st, args, kwargs):
+            st.ghost['closed'] = st.ghost['closed'] + ('async_close',)
+            return NONE
+        return {'*.close': Pure(close, name='soap_client.close() (does not raise)', trusted=True),
+                '*.async_close': Pure(async_close, name='soap_client.async_close() coroutine'),
+                '*.run_coro': Pure(run_coro, name='event loop thread runs the close coroutine', trusted=True)}
+
+
+@register
+class PoolForgetUser(_Pool):
+    id = 'C08.pool_forget_user'
+    target = f'{SP}:SoapClientPool.forget_usr'
+    doc = ('SoapClientPool.forget_usr: the user is removed from the address entry; when it was the last one the entry '
+           'leaves the pool - whatever state its connection is in - and its client is closed exactly once, so a later '
+           'subscription for the same address gets a new connection instead of a dead one; other addresses and an '
+           'entry that still has users are untouched')
+
+    def setup(self, b):
+        self.key = self.mk_pool(b)
+        return self.o, [self.netloc, self.usr], {}
+
+    def callees(self, ex):
+        return self.close_summaries()
+
+    def post(self, ex, st0, st, outcome, b):
+        if outcome[0] == 'exc':
+            ex.oblige(st, 'never_raises', z3.BoolVal(False), info={'exc': repr(outcome[1])})
+            return
+        dk1 = z3.Select(st.get_arr('DK'), self.clients.e)
+        dv1 = z3.Select(st.get_arr('DV'), self.clients.e)
+        U1 = st.list_seq(self.users)
+        usr = Val.ref(self.usr.e)
+        closed = st.ghost['closed']
+        k = z3.Const('k!pool', Val)
+        ex.oblige(st, 'other_addresses_untouched', z3.ForAll([k], z3.Implies(k != self.key, z3.And(
+            z3.Select(dk1, k) == z3.Select(self.dk0, k), z3.Select(dv1, k) == z3.Select(self.dv0, k)))))
+        active = z3.And(self.known, z3.Length(self.U0) > 0)
+        ex.oblige(st, 'user_is_forgotten', z3.Implies(z3.And(active, z3.Contains(self.U0, z3.Unit(usr))),
+                                                       z3.Length(U1) == z3.Length(self.U0) - 1))
+        ex.oblige(st, 'entry_without_users_leaves_the_pool', z3.Implies(z3.And(active, z3.Length(U1) == 0),
+                                                                           z3.Not(z3.Select(dk1, self.key))))
+        ex.oblige(st, 'entry_with_users_stays', z3.Implies(z3.And(active, z3.Length(U1) > 0), z3.And(
+            z3.Select(dk1, self.key), z3.Select(dv1, self.key) == Val.ref(self.entry.e), z3.BoolVal(len(closed) == 0))))
+        ex.oblige(st, 'client_closed_exactly_when_its_entry_is_dropped', z3.Implies(
+            z3.And(active, z3.Length(U1) == 0, Val.is_ref(self.client.e)), z3.BoolVal(len(closed) == 1)))
+        ex.oblige(st, 'unknown_address_changes_nothing', z3.Implies(z3.Not(active), z3.And(
+            z3.Select(dk1, self.key) == z3.Select(self.dk0, self.key), U1 == self.U0, z3.BoolVal(len(closed) == 0))))
+
+
+@register
+class PoolGetClient(_Pool):
+    id = 'C08.pool_get_soap_client'
+    target = f'{SP}:SoapClientPool.get_soap_client'
+    doc = ('SoapClientPool.get_soap_client: an address without entry gets a new client from the factory, stored with '
+           'this user; an address with an entry returns that entry\'s client and registers the user once; other '
+           'addresses are untouched')
+
+    def setup(self, b):
+        self.key = self.mk_pool(b)
+        self.acc = b.obj('accepted_encodings')
+        return self.o, [self.netloc, self.acc, self.usr], {}
+
+    def callees(self, ex):
+        def factory(ex_, st, args, kwargs):
+            c = st.alloc('SoapClient')
+            st.ghost['c:new_client'] = c
+            st.ghost['c:factory_args'] = (st.box(args[0]), st.box(args[1]))
+            return c
+        return {'self._soap_client_factory': Pure(factory, name='soap client factory (netloc, accepted encodings)')}
+
+    inline = (f'{SP}:_SoapClientEntry.__init__',)
+
+    def post(self, ex, st0, st, outcome, b):
+        if outcome[0] == 'exc':
+            ex.oblige(st, 'never_raises', z3.BoolVal(False), info={'exc': repr(outcome[1])})
+            return
+        dk1 = z3.Select(st.get_arr('DK'), self.clients.e)
+        dv1 = z3.Select(st.get_arr('DV'), self.clients.e)
+        usr = Val.ref(self.usr.e)
+        r = st.box(outcome[1])
+        k = z3.Const('k!pool', Val)
+        ex.oblige(st, 'other_addresses_untouched', z3.ForAll([k], z3.Implies(k != self.key, z3.And(
+            z3.Select(dk1, k) == z3.Select(self.dk0, k), z3.Select(dv1, k) == z3.Select(self.dv0, k)))))
+        new = st.ghost.get('c:new_client')
+        if new is None:
+            ex.oblige(st, 'existing_entry_returns_its_client', z3.And(self.known, r == self.client.e,
+                                                                      z3.Select(dv1, self.key) == Val.ref(self.entry.e)))
+            U1 = st.list_seq(self.users)
+            ex.oblige(st, 'user_registered_once', z3.And(z3.Contains(U1, z3.Unit(usr)), z3.Or(
+                U1 == self.U0, z3.And(z3.Not(z3.Contains(self.U0, z3.Unit(usr))), U1 == z3.Concat(self.U0, z3.Unit(usr))))))
+        else:
+            fa = st.ghost['c:factory_args']
+            e1 = z3.Select(dv1, self.key)
+            ex.oblige(st, 'new_client_only_for_unknown_address', z3.Not(self.known))
+            ex.oblige(st, 'new_client_made_for_this_address_and_returned', z3.And(
+                r == Val.ref(new.e), fa[0] == self.key, fa[1] == Val.ref(self.acc.e)))
+            ex.oblige(st, 'new_entry_stored_with_this_user', z3.And(
+                z3.Select(dk1, self.key), Val.is_ref(e1),
+                z3.Select(st.get_arr('f:soap_client'), Val.oid(e1)) == Val.ref(new.e),
+                z3.Select(st.get_arr('L'), Val.oid(z3.Select(st.get_arr('f:usr_idents'), Val.oid(e1)))) == z3.Unit(usr)))
+
+
+@register
+class ActionFilterTokens(FnCheck):
+    id = 'C08.action_filter_tokens'
+    prop = 'C08'
+    tag = 'S'
+    opaque_ok = True
+    target = f'{SB}:ActionBasedSubscription.__init__'
+    doc = ('ActionBasedSubscription.__init__: the action filter of a subscription is the list of white-space separated '
+           'tokens of the wse:Filter text (an xs:list of URIs may be separated by any XML white space - blanks, tabs, '
+           'line breaks, several in a row): exactly str.split() without separator is appended to actions_filter, once')
+    trusted = ('str.split() without argument splits at runs of white space and yields no empty tokens',)
+    field_types = {'text': 'str'}
+
+    def setup(self, b):
+        self.text = b.str('filter_text')
+        self.ft = b.obj('filter_type', text=self.text)
+        self.o = b.obj('self', cls=(SB, 'ActionBasedSubscription'))
+        b.st.ghost['ext'] = ()
+        return self.o, [], {}
+
+    def hooks(self, ex):
+        chk = self
+
+        class H:
+            tracked_names = ('filter_type', 'extend')
+
+            @staticmethod
+            def on_attr_read(ex_, st, o, attr, node):
+                if attr == 'filter_type' and o.path == 'self':
+                    return [(st, chk.ft)]          # the subscription was created with a filter
+                return None
+
+            @staticmethod
+            def on_call(ex_, st, fv, keys, args, kwargs, node):
+                if fv.t == 'method' and fv.name in ('extend', 'append', '__iadd__') and (getattr(fv.recv, 'path', '') or '').endswith('actions_filter'):
+                    a = ex_.concrete_kind(st, args[0], ('ref',))
+                    text_now = z3.Select(st.get_arr('f:text'), chk.ft.e)      # the filter text at the time of the call
+                    if a.kind == 'any':
+                        a = V('ref', Val.oid(a.e))
+                    st.ghost['ext'] = st.ghost['ext'] + ((fv.name, st.list_seq(a) if a.kind == 'ref' else None, text_now),)
+                    return [(st, NONE)]
+                return None
+        return H
+
+    def post(self, ex, st0, st, outcome, b):
+        if outcome[0] == 'exc':
+            return
+        ext = st.ghost['ext']
+        ok = len(ext) == 1 and ext[0][0] == 'extend' and ext[0][1] is not None
+        ws_split = models.uf('str_split', StrS, StrS, SeqVal)(Val.s(ext[0][2]), z3.StringVal(' \x00ws')) if ok else None
+        ex.oblige(st, 'filter_is_the_whitespace_separated_token_list',
+                  z3.Implies(Val.is_str(ext[0][2]), ext[0][1] == ws_split) if ok else z3.BoolVal(False),
+                  info={'calls': str([e[0] for e in ext])})
